@@ -9,11 +9,11 @@ CONSTANTS
   LInitNN = {0, 1, 2}
   DInit = {3}
   EmitOn = TRUE
-  GvLayouts = {"C", "F", "rows2", "cols2", "rev", "f32", "f32F", "i64", "i32F", "be", "unaligned", "readonly"}
-  UbiLayouts = {"C", "F", "strided", "f32", "list", "i64"}
+  GvLayouts = {"C", "F", "cols2", "f32", "be"}
+  UbiLayouts = {"C", "F"}
   Builds = {"indexer", "from_colfile", "from_colfile_and_ucell", "set_gv", "readgvfile"}
-  Preps = {"direct", "rings"}
-  NFKinds = {}
+  Preps = {"direct"}
+  NFKinds = {"nan_one", "nan_all", "pinf_one", "ninf_one", "inf_all"}
   Flatten = "wrapper"
 INVARIANT LayoutBlind
 INVARIANT ClosedForm
